@@ -13,7 +13,7 @@ from concurrent.futures import ThreadPoolExecutor
 VERIF = os.path.dirname(os.path.dirname(os.path.abspath(__file__)))
 LEAN = os.path.join(VERIF, "lean")
 HARNESS = os.path.join(VERIF, "harness")
-DRIVER = os.path.join(LEAN, ".lake", "build", "bin", "driver")
+DRIVER = os.environ.get("VERIF_DRIVER") or os.path.join(LEAN, ".lake", "build", "bin", "driver")
 RLV = os.path.join(HARNESS, "target", "debug", "rlv")
 WORK = os.path.join(VERIF, "work")
 NCPU = max(2, min(16, os.cpu_count() or 4))
